@@ -116,16 +116,16 @@ Proof.
   - intros blk. apply (switch_if_okP F). exact Hk.
 Qed.
 
-Lemma async_fin_okP : forall jt v gs ahs, code_okP F (async_fin jt v gs ahs).
+Lemma async_fin_okP : forall tls dtor jt v gs ahs, dtor_okP dtor -> code_okP F (async_fin tls dtor jt v gs ahs).
 Proof.
-  intros jt v gs ahs. unfold async_fin. apply okP_log. apply drop_guards_okP. apply detach_all_okP.
-  apply finish_okP. apply okP_ret.
+  intros tls dtor jt v gs ahs Hd. unfold async_fin. apply okP_log. apply drop_guards_okP. apply detach_all_okP.
+  apply (tls_loop_okP F HF); [exact Hd|]. apply finish_okP. apply okP_ret.
 Qed.
 
-Lemma async_abort_okP : forall jt gs ahs, code_okP F (async_abort jt gs ahs).
+Lemma async_abort_okP : forall tls dtor jt gs ahs, dtor_okP dtor -> code_okP F (async_abort tls dtor jt gs ahs).
 Proof.
-  intros jt gs ahs. unfold async_abort. apply drop_guards_okP. apply detach_all_okP.
-  apply finish_okP. apply okP_ret.
+  intros tls dtor jt gs ahs Hd. unfold async_abort. apply drop_guards_okP. apply detach_all_okP.
+  apply (tls_loop_okP F HF); [exact Hd|]. apply finish_okP. apply okP_ret.
 Qed.
 
 (* ------------------------------------------------------------------ *)
@@ -246,14 +246,14 @@ Proof.
     + (* PASpawn *)
       apply okP_switch. apply okP_spawn.
       * apply (atomic_b_okP F HF); [same_e|].
-        intros ab. destruct ab; [apply async_abort_okP|].
-        apply IHf. apply async_fin_okP.
+        intros ab. destruct ab; [apply async_abort_okP; exact Hd|].
+        apply IHf. intros gs' ahs'. apply async_fin_okP. exact Hd.
       * intros tid. apply (atomic_u_okP F HF).
         -- intros e s e' s' Hr H. eapply joins_register_sframe; [exact Hr|exact H].
         -- apply okP_log. apply IHr.
     + (* PAwait *)
       split_ans; try apply okP_panic.
-      apply (await_join_okP F HF); [apply async_abort_okP|].
+      apply (await_join_okP F HF); [apply async_abort_okP; exact Hd|].
       intros res. apply okP_log. apply detach_okP. apply IHr.
     + (* PAbort *)
       split_ans; try apply okP_panic.
@@ -262,7 +262,7 @@ Proof.
       split_ans; try apply okP_panic.
       apply detach_okP. apply okP_log. apply IHr.
     + (* PAYield *)
-      apply (await_yield_okP F HF); [apply async_abort_okP|].
+      apply (await_yield_okP F HF); [apply async_abort_okP; exact Hd|].
       apply okP_log. apply IHr.
     + (* PBlockOn *)
       apply okP_log. apply IHf.
